@@ -11,7 +11,8 @@ MODULE = "DaliVerif.Props.C14"
 EXES = ["m_gearseq"]
 GEN = True
 THEOREMS = ["setTc_spec", "setTc_exact", "setTcLimit_spec", "query_spec", "query_none", "rejects_early",
-            "selectors_gen", "tcLimit_gen", "query_spec_gen", "cmd_frames_gen", "addr_bytes_gen"]
+            "selectors_gen", "tcLimit_gen", "query_spec_gen", "cmd_frames_gen", "cmd_sendtwice_gen",
+            "execFlagged_eq_exec", "addr_bytes_gen"]
 TRUSTED = ["hand-written models Model/GearSeq.lean of SetDT8ColourValueTc, SetDT8TcLimit, QueryDT8ColourValue "
            "(dali/gear/sequences.py), tied by lock-step execution of the real generators (all 65 536 mirek values, "
            "all selectors of the enum)",
